@@ -109,5 +109,32 @@ func SpecTrieWord(t *Trie, w string) bool   { panic("abstract spec function") }
 //@     invariant idx: 0 - 1 <= rangeindex && rangeindex < len(f.dbBlackList)
 //@     invariant none_before: forall j int :: 0 <= j && j <= rangeindex ==> f.dbBlackList[j] != db
 
+// ---- key filter over a whole command: rejected only for a blocked key; a projected DEL / ----
+// ---- UNLINK / MSET keeps exactly unblocked keys (with their values), in order ----------------
+//@ pred blocked(f, key): keyRejected(f, key) || slotRejected(f, key)
+//@ func CommandKeyIndexes(cmd, args) (idx, ok)
+//@   trusted abstract key-position table (keyspec): not decided here
+//@   modifies nothing
+//@   ensures fresh_result: len(idx) == 0 || fresh(idx)
+//@ func CommandAllowsPartialProjection(cmd) (r)
+//@   trusted abstract key-position table (keyspec)
+//@   modifies nothing
 //@ func RedisKeyFilter.FilterCmdKey
-//@   trusted frame only (projection not yet under contract): builds new argument slices, modifies nothing that existed before
+//@   arith int
+//@   properties C10
+//@   opaque SpecHashSlot
+//@   requires wf [C10]: filterWF(f)
+//@   modifies nothing
+//@   ensures no_key_filter_configured_passes_everything: f.prefixKeyBlackTrie == nil && f.prefixKeyWhiteTrie == nil && f.slotKeyBlackList == nil && f.slotKeyWhiteList == nil ==> !result1 && len(result0) == len(args)
+//@   ensures rejected_only_after_a_key_was_found_blocked_or_out_of_range [local]: result1 ==> ok && (filtered || (exists i int :: 0 <= i && i < len(indexes) && (indexes[i] < 0 || indexes[i] >= len(args))))
+//@   ensures untouched_when_no_key_was_found_blocked [local]: !result1 && !filtered ==> len(result0) == len(args)
+//@   loop 1:
+//@     invariant scanned: 0 - 1 <= rangeindex#1 && rangeindex#1 < len(indexes) && len(kept) == len(indexes) && 0 <= keptCount && keptCount <= rangeindex#1 + 1
+//@     invariant kept_iff_not_blocked: forall i int :: 0 <= i && i <= rangeindex#1 ==> 0 <= indexes[i] && indexes[i] < len(args) && (kept[i] <==> !blocked(f, string(args[indexes[i]])))
+//@     invariant not_yet_scanned_is_false: forall i int :: rangeindex#1 < i && i < len(kept) ==> !kept[i]
+//@     invariant filtered_iff_some_blocked: filtered <==> (exists i int :: 0 <= i && i <= rangeindex#1 && !kept[i])
+//@     invariant none_kept_iff_count_zero: keptCount == 0 <==> (forall i int :: 0 <= i && i <= rangeindex#1 ==> !kept[i])
+//@   loop 2:
+//@     invariant only_unblocked_keys_survive: 0 - 1 <= rangeindex#2 && fresh(newArgs#1) && (forall j int :: 0 <= j && j < len(newArgs#1) ==> (exists i int :: 0 <= i && i <= rangeindex#2 && kept[i] && newArgs#1[j] == args[indexes[i]]))
+//@   loop 3:
+//@     invariant pairs_of_unblocked_keys_survive: 0 - 1 <= rangeindex#3 && fresh(newArgs#2) && len(newArgs#2) % 2 == 0 && (forall j int :: 0 <= j && 2 * j + 1 < len(newArgs#2) ==> (exists i int :: 0 <= i && i <= rangeindex#3 && kept[i] && newArgs#2[2 * j] == args[indexes[i]] && newArgs#2[2 * j + 1] == args[indexes[i] + 1]))
